@@ -144,7 +144,7 @@ def slotOf (h : HFile) (il t : Nat) : Option Nat :=
   if h.is3d && !h.structured then (positions h il)[t]? else if t < h.grid then some t else none
 
 def headerCanon (h : HFile) (il t : Nat) : Except Err (List Int) :=
-  if h.is3d && !(decide (t < h.grid)) then .error .index else
+  if !(decide (t < h.grid)) then .error .index else
   match slotOf h il t with
   | some pos => .ok (headerAt h pos)
   | none => if hasStored h then .error .index else .ok (headerAt h 0)
@@ -250,7 +250,7 @@ theorem genTraceHeader_spec (h : HFile) (il : Nat) (st : HSt) (hinv : HInv h il 
     HInv h il (genTraceHeader h il st t loadAll).1 ∧
     HR.vals (genTraceHeader h il st t loadAll).2 = headerCanon h il t := by
   unfold genTraceHeader headerCanon
-  by_cases hb : (h.is3d && !(decide (t < h.grid))) = true
+  by_cases hb : (!(decide (t < h.grid))) = true
   · rw [if_pos hb, if_pos hb]; exact ⟨hinv, rfl⟩
   rw [if_neg hb, if_neg hb]
   by_cases hsl : (h.structured && !loadAll) = true
